@@ -119,3 +119,44 @@ fn serde_u8_via_yaml_deserializer<'de>(ev: &mut dyn Events<'de>, cfg: Cfg) -> (r
                  && final(ev).rest() == old(ev).rest().skip(1),
         Err(_) => true },
 { unimplemented!() }
+
+uninterp spec fn vis_none(v: Vis) -> Result<VisVal, Error>;
+uninterp spec fn vis_unit(v: Vis) -> Result<VisVal, Error>;
+/// what the visitor makes of a deserializer positioned at `rest` (it may consume any prefix of it)
+uninterp spec fn vis_some<'de>(v: Vis, rest: Seq<Ev<'de>>, cfg: Cfg, in_key: bool, key_empty_map_node: bool) -> Result<VisVal, Error>;
+impl Vis {
+    #[verifier::external_body]
+    fn visit_none(self) -> (r: Result<VisVal, Error>) ensures r == vis_none(self) { unimplemented!() }
+    #[verifier::external_body]
+    fn visit_unit(self) -> (r: Result<VisVal, Error>) ensures r == vis_unit(self) { unimplemented!() }
+    #[verifier::external_body]
+    fn visit_some<'de, 'e>(self, d: YamlDeserializer<'de, 'e>) -> (r: Result<VisVal, Error>)
+        ensures r == vis_some(self, old(d.ev).rest(), d.cfg, d.in_key, d.key_empty_map_node)
+    { unimplemented!() }
+}
+
+/// `Option<T>` is None for: nothing left, a container end where a value was expected, a `!!null` scalar, a null-like scalar
+spec fn opt_none_scalar(e: Ev) -> bool {
+    match e { Ev::Scalar { value, tag, style, .. } => tag == SfTag::Null
+                || (value@.len() == 0 && !(style is SingleQuoted || style is DoubleQuoted))
+                || (style is Plain && sp_null_text(encode_utf8(value@))), _ => false }
+}
+spec fn unit_scalar(e: Ev) -> bool {
+    match e { Ev::Scalar { value, style, .. } => style is Plain && sp_null_text(encode_utf8(value@)), _ => false }
+}
+
+// ---- SA::next_element_seed: the element seed (serde side) is opaque ----
+#[verifier::external_body]
+pub struct ElemSeed { _p: () }     // stands for `T: DeserializeSeed<'de>`
+#[verifier::external_body]
+pub struct ElemVal { _p: () }      // stands for `T::Value`
+uninterp spec fn elem_seed_result<'de>(seed: ElemSeed, rest: Seq<Ev<'de>>, cfg: Cfg, reference_location: Location, defined_location: Location) -> Result<Option<ElemVal>, Error>;
+/// `seed.deserialize(YamlDeserializer::new(ev, cfg)).map(Some).map_err(|e| attach_alias_locations_if_missing(e, r, d))`
+#[verifier::external_body]
+fn seed_deserialize_element<'de>(seed: ElemSeed, ev: &mut dyn Events<'de>, cfg: Cfg, reference_location: Location, defined_location: Location) -> (r: Result<Option<ElemVal>, Error>)
+    ensures r == elem_seed_result(seed, old(ev).rest(), cfg, reference_location, defined_location), !(r == Ok::<Option<ElemVal>, Error>(None)),
+{ unimplemented!() }
+impl MissingFieldLocationGuard {
+    #[verifier::external_body]
+    fn new(location: Location) -> MissingFieldLocationGuard { unimplemented!() }
+}
